@@ -10,12 +10,23 @@ CLAIMED = {
     'C01': ('§4 C01', 'the whole generation path (analysis, contexts, Tera templates) is executed symbolically on projects with one symbolic dimension each '
             '(names, rename values, event names, validator messages) and on enumerated README type expressions; every written file is read by an independent '
             'TypeScript-subset reader whose reject states are counterexamples, replayed through the real CLI'),
+    'C02': ('§4 C02', 'a project-defined type with a symbolic name is placed under every constructor context at every site (plus type-mapped names, shared types, '
+            'repeated events); all four modules are parsed and every type/value reference is resolved against declarations, imports, type parameters and the '
+            'exports of types.ts, name equalities decided by the solver; duplicate exports and index.ts re-exports are checked'),
+    'C03': ('§4 C03', 'directory layouts with symbolic directory names / extensions, decoy files and directories, all WalkDir enumeration orders, symbolic attribute '
+            'paths, nested items, unparsable files; the set of wrappers and their invoke names is compared with the ground-truth command set'),
     'C04': ('§4 C04', 'symbolic parameter names and a symbolic last path segment of the parameter type; keys of the Params declaration and of the object reaching '
             'invoke are compared with Tauri\'s naming (heck) and the injected-parameter list, both modes'),
     'C05': ('§4 C05', 'type skeletons (constructor chains of depth <=2, thorough 3) with a symbolic leaf type name at the five translation sites; the emitted '
             'TypeScript type is parsed with TypeScript precedence and its JSON shape compared with the serde denotation'),
     'C06': ('§4 C06', 'symbolic identifiers and attribute strings under every rename_all convention and %d attribute patterns; emitted keys/literals are compared '
             'with serde_derive\'s own case.rs executed by the same engine' % 18),
+    'C07': ('§4 C07', 'type dependency graphs (11 shapes, each edge through 19 constructor contexts, 6 root sites, two files, decoys, error types) with a symbolic root '
+            'type name; the set of declarations read from types.ts is compared with graph reachability, both modes, two container schedules'),
+    'C09': ('§4 C09', 'acyclic type graphs under every iteration order of the hash containers inside topological_sort_types/topological_visit; the order of schema '
+            'constants in the Zod types.ts is checked against the identifiers each right-hand side mentions'),
+    'C12': ('§4 C12', 'emit/emit_to at 19 statement placements x 11 receiver forms, symbolic event names (single and pairs), symbolic receiver types, payload forms with '
+            'symbolic leaf types; listeners are read back from events.ts and compared with the expected set, names, payload shapes and identifier uniqueness'),
     'C20': ('§4 C20', 'all digraphs on 3 nodes x all requested subsets x all iteration orders of every hash container (thorough: 4 nodes, out-degree<=2): '
             'result checked against graph ground truth; a counterexample is a concrete graph + order, replayed on the native build'),
 }
